@@ -1,7 +1,7 @@
-\* registration protocol, repaired code (removals by value); the rapid-reload finding tolerated
+\* registration protocol with several registrations per expression, repaired code (removals by value); the rapid-reload finding tolerated
 CONSTANTS
-  Exprs = {"e1", "e2", "e3"}
-  MaxMult = 1
+  Exprs = {"e1", "e2"}
+  MaxMult = 2
   MultisetDiff = FALSE
   MaxLoads = 3
   DiffByValue = TRUE
